@@ -53,9 +53,9 @@ None == <<"none">>
 Init ==
   \* a pack with a readable trailer has the size its trailer implies; a damaged one (cut, overwritten, appended to) any size
   /\ \E ps \in SUBSET Pack : store \in [ps -> {r \in [size : Sizes, hdr : Hdrs] : r.hdr # Bad => r.size = Size(r.hdr)}]
-  \* up to MaxEntries (= 2) index entries, in the same or in different index files
-  /\ \E a, b \in (IdxId \X Entry) \cup {None} :
-        LET fes == {a, b} \ {None} IN
+  \* up to MaxEntries (2 or 3) index entries, in the same or in different index files
+  /\ \E a, b \in (IdxId \X Entry) \cup {None}, c \in (IF MaxEntries >= 3 THEN (IdxId \X Entry) \cup {None} ELSE {None}) :
+        LET fes == {a, b, c} \ {None} IN
         idx = [i \in {fe[1] : fe \in fes} |-> {fe[2] : fe \in {x \in fes : x[1] = i}}]
   \* assumption: index entries were written by the library from the pack they describe - an entry whose size fits a pack
   \* with readable trailer lists that trailer's blobs (entries can be stale, duplicated, marked or refer to lost / damaged
